@@ -260,11 +260,23 @@ impl Gen {
 
     /// primitive-only struct biased towards (almost) padding-free layouts
     pub fn gen_packed_struct(&mut self) -> usize {
-        let repr = *self.rng.pick(&[Repr::C, Repr::C, Repr::C, Repr::Rust]);
+        let al = *self.rng.pick(&[2u32, 4, 8, 16]);
+        let repr = *self.rng.pick(&[Repr::C, Repr::C, Repr::C, Repr::C, Repr::Rust, Repr::Rust, Repr::CAlign(al), Repr::Align(al)]);
         let shape = *self.rng.pick(&[Shape::Named, Shape::Named, Shape::Tuple]);
-        let n = self.rng.range(1, 7);
+        let mut n = self.rng.range(1, 7);
+        if matches!(repr, Repr::CAlign(_) | Repr::Align(_)) && self.rng.chance(1, 2) {
+            // over-aligned wrapper of a single field: only trailing padding
+            n = 1;
+            self.stat("packed_struct.over_aligned_single_field");
+        }
         let mut fields = vec![];
-        let mode = self.rng.below(5);
+        // the compiler is free to reorder repr(Rust) fields (it does so within a group of equal
+        // alignment when some of them have niches): same-size mixes with bool / char more often there
+        let mut mode = self.rng.below(6);
+        if matches!(repr, Repr::Rust | Repr::Align(_)) && self.rng.chance(1, 2) {
+            mode = *self.rng.pick(&[3, 5]);
+            self.stat("packed_struct.same_size_niche_mix_reorderable");
+        }
         let base = *self.rng.pick(&PACKABLE);
         for i in 0..n {
             let p = match mode {
@@ -276,6 +288,7 @@ impl Gen {
                     order[(i * order.len() / n).min(order.len() - 1)]
                 }
                 3 => *self.rng.pick(&[Prim::U8, Prim::I8, Prim::Bool]), // all size 1
+                5 => *self.rng.pick(&[Prim::U32, Prim::I32, Prim::F32, Prim::Char, Prim::Char]), // all size 4
                 _ => {
                     if i == 0 { Prim::U32 } else { *self.rng.pick(&[Prim::U32, Prim::I32, Prim::F32, Prim::Char, Prim::U16]) }
                 }
@@ -296,26 +309,41 @@ impl Gen {
             fields.push(Field::plain(&fname, ty));
         }
         // occasionally: version attributes on a packed candidate (closed-range live field, added field)
-        if self.uni.version >= 1 && self.rng.chance(1, 5) {
-            let i = self.rng.below(fields.len());
+        // (only on fields whose type implements Default: nested defs may be enums, which do not)
+        let defaultable: Vec<usize> = (0..fields.len()).filter(|i| !matches!(fields[*i].ty, Ty::Def(..))).collect();
+        if self.uni.version >= 1 && !defaultable.is_empty() && self.rng.chance(1, 4) {
+            // one field, or several (any declaration order of their version ranges)
+            let picks: Vec<usize> = if self.rng.chance(1, 2) {
+                vec![*self.rng.pick(&defaultable)]
+            } else {
+                let mut p: Vec<usize> = defaultable.iter().copied().filter(|_| self.rng.chance(1, 2)).collect();
+                if p.is_empty() {
+                    p.push(*self.rng.pick(&defaultable));
+                }
+                self.stat("packed_struct.several_versioned_fields");
+                p
+            };
             let v = self.uni.version;
-            match self.rng.below(3) {
-                0 => {
-                    let from = self.rng.range(0, (v - 1) as usize) as u32;
-                    let to = self.rng.range(from as usize, (v - 1) as usize) as u32;
-                    fields[i].vfrom = from;
-                    fields[i].vto = Some(to);
-                    self.stat("packed_struct.closed_range_live_field");
-                }
-                1 => {
-                    fields[i].vfrom = self.rng.range(1, v as usize) as u32;
-                    self.stat("packed_struct.added_field");
-                }
-                _ => {
-                    let to = self.rng.range(0, (v - 1) as usize) as u32;
-                    fields[i].vto = Some(to);
-                    fields[i].removed = RemovedKind::AbiRemoved;
-                    self.stat("packed_struct.abi_removed_field");
+            for i in picks {
+                match self.rng.below(3) {
+                    0 => {
+                        let from = self.rng.range(0, (v - 1) as usize) as u32;
+                        let to = self.rng.range(from as usize, (v - 1) as usize) as u32;
+                        fields[i].vfrom = from;
+                        fields[i].vto = Some(to);
+                        self.stat("packed_struct.closed_range_live_field");
+                    }
+                    1 => {
+                        fields[i].vfrom = self.rng.range(1, v as usize) as u32;
+                        self.stat("packed_struct.added_field");
+                    }
+                    _ => {
+                        let to = self.rng.range(0, (v - 1) as usize) as u32;
+                        fields[i].vfrom = self.rng.range(0, to as usize) as u32;
+                        fields[i].vto = Some(to);
+                        fields[i].removed = RemovedKind::AbiRemoved;
+                        self.stat("packed_struct.abi_removed_field");
+                    }
                 }
             }
         }
@@ -584,6 +612,8 @@ pub fn repr_class(r: Repr) -> &'static str {
         Repr::Int(_) => "Int",
         Repr::CInt(_) => "CInt",
         Repr::Transparent => "Transparent",
+        Repr::CAlign(_) => "CAlign",
+        Repr::Align(_) => "Align",
     }
 }
 
@@ -674,10 +704,53 @@ fn fixed_defs(g: &mut Gen) {
         params: 0,
         recursive: false,
     });
+    // padding-free repr(C) struct whose middle field existed only in version 1 and is gone from memory
+    let mut gone = f("f1", p(Prim::U32));
+    gone.vfrom = 1;
+    gone.vto = Some(1);
+    gone.removed = RemovedKind::AbiRemoved;
+    g.push(Def {
+        name: format!("{}Fix8", g.prefix),
+        repr: Repr::C,
+        kind: DefKind::Struct { shape: Shape::Named, fields: vec![f("f0", p(Prim::U32)), gone, f("f2", p(Prim::U32))] },
+        params: 0,
+        recursive: false,
+    });
+    // padding-free repr(C) struct with two added fields, the newer one declared first
+    let mut a2 = f("f0", p(Prim::U32));
+    a2.vfrom = 2;
+    let mut a1 = f("f1", p(Prim::U32));
+    a1.vfrom = 1;
+    g.push(Def {
+        name: format!("{}Fix9", g.prefix),
+        repr: Repr::C,
+        kind: DefKind::Struct { shape: Shape::Named, fields: vec![a2, a1, f("f2", p(Prim::U32))] },
+        params: 0,
+        recursive: false,
+    });
+    // over-aligned single-field wrapper (trailing padding only)
+    g.push(Def {
+        name: format!("{}Fix10", g.prefix),
+        repr: Repr::CAlign(8),
+        kind: DefKind::Struct { shape: Shape::Tuple, fields: vec![f("0", p(Prim::U32))] },
+        params: 0,
+        recursive: false,
+    });
+    // repr(Rust) struct of one-byte fields, some with a niche (the compiler may reorder them)
+    g.push(Def {
+        name: format!("{}Fix11", g.prefix),
+        repr: Repr::Rust,
+        kind: DefKind::Struct {
+            shape: Shape::Named,
+            fields: vec![f("f0", p(Prim::Bool)), f("f1", p(Prim::U8)), f("f2", p(Prim::Bool)), f("f3", p(Prim::U8))],
+        },
+        params: 0,
+        recursive: false,
+    });
 }
 
 pub fn gen_data_batch(seed: u64, n_defs: usize, module: &str, name_prefix: &str) -> DataBatch {
-    let mut g = Gen::new(seed, module, 2, name_prefix);
+    let mut g = Gen::new(seed, module, 2 + (crate::rng::fnv64(&seed.to_le_bytes()) % 3) as u32, name_prefix);
     fixed_defs(&mut g);
     while g.uni.defs.len() < n_defs {
         match g.rng.weighted(&[22, 12, 12, 26, 14, 5, 3, 6]) {
